@@ -297,7 +297,7 @@ def multi_inputs(chk):
             for pp in ((), ('-E',)):
                 n += 1
                 try:
-                    p = subprocess.run([exe] + list(pp) + list(combo), cwd=work, stdout=subprocess.PIPE, stderr=subprocess.PIPE, env=env, timeout=20)
+                    p = subprocess.run([exe] + list(pp) + list(combo), cwd=work, stdout=subprocess.PIPE, stderr=subprocess.PIPE, env=env, timeout=20, preexec_fn=fs.child_limits(15))
                     status, err = p.returncode, p.stderr
                 except subprocess.TimeoutExpired:
                     status, err = 'timeout', b''
@@ -321,14 +321,15 @@ def io_faults(chk):
         src = os.path.join(work, 'in.c')
         big = b''.join(b'int v%d = %d;\n' % (i, i) for i in range(4000))
         open(src, 'wb').write(big)
-        ref = subprocess.run([exe, src], stdout=subprocess.PIPE, stderr=subprocess.PIPE, timeout=60)
+        ref = subprocess.run([exe, src], stdout=subprocess.PIPE, stderr=subprocess.PIPE, timeout=60, preexec_fn=fs.child_limits(30))
         if ref.returncode != 0:
             from ..runner import SubjectFailure
             raise SubjectFailure('io/baseline-rejected', 'a unit of 4000 int definitions is not compiled (status %s): %s' % (ref.returncode, ref.stderr[:300]), files={'input.c': big}, cmd='$CPROC_QBE input.c > /dev/null')
 
         def run(args, **kw):
             try:
-                p = subprocess.run([exe] + args, stdout=kw.pop('stdout', subprocess.PIPE), stderr=subprocess.PIPE, timeout=60, **kw)
+                p = subprocess.run([exe] + args, stdout=kw.pop('stdout', subprocess.PIPE), stderr=subprocess.PIPE, timeout=60, **kw) if 'preexec_fn' in kw else \
+                    subprocess.run([exe] + args, stdout=kw.pop('stdout', subprocess.PIPE), stderr=subprocess.PIPE, timeout=60, preexec_fn=fs.child_limits(30), **kw)
                 return p.returncode, p
             except subprocess.TimeoutExpired:
                 return 'timeout', None
@@ -470,7 +471,7 @@ def main(chk):
             r = srv.run(args, data, 0, 10)
             if classify(r.status, r.err) != (k.split('/', 2)[2] if k.startswith('valid-input/') else k):
                 chk.notes.append('flaky: %s %s first %s then %s' % (name, label, k, classify(r.status, r.err)))
-        p = subprocess.run('%s %s < /dev/stdin' % (plain, ' '.join(args)), shell=True, input=data, stdout=subprocess.DEVNULL, stderr=subprocess.PIPE, timeout=60) \
+        p = subprocess.run('%s %s < /dev/stdin' % (plain, ' '.join(args)), shell=True, input=data, stdout=subprocess.DEVNULL, stderr=subprocess.PIPE, timeout=60, preexec_fn=fs.child_limits(30)) \
             if k != 'timeout' else None
         chk.violation(key, '%s (%d inputs; shortest: %s %s, %d bytes); plain build: status %s' % (
             k, c['n'], name, label, len(data), p.returncode if p else 'n/a'),
